@@ -173,7 +173,8 @@ package router
 //@   callsite m.PublicAddress.VerifySigWithContext context-of-this-announcement [C08]: base(arg3) == base(signingContext) && off(arg3) == off(signingContext) && len(arg3) == 88
 //@   callsite cbor.Unmarshal#2 decodes-the-signed-record [C08]: base(arg0) == base(apx) && off(arg0) == off(apx) && len(arg0) == len(apx) - 64
 //@   callsite append hop-only-after-verification [C08]: sig_ok && len(arg1) == 1 && arg1[0].Router == attached.Router.IP && arg1[0].Delay == attached.Delay && arg1[0].ForwardLabel == attached.ForwardLabel && arg1[0].ReturnLabel == attached.ReturnLabel
-//@   invariant 1 layers: 1 <= i && i <= 100
+// every verified layer adds exactly one hop: none is skipped or dropped
+//@   invariant 1 layers [C08]: 1 <= i && i <= 100 && len(hops) == i - 1
 //@   ensures message [C13]: result2 == nil ==> result0 != nil
 
 //@ func AnnouncePingHandler.sessionFromAnnouncePingAttachment
